@@ -463,7 +463,8 @@ def _run_case(case):
         worst = 0.0
         for _ in range(8):
             x = xl + rng.random(pb.n) * (xu - xl)
-            xf = pb.build_x(x)
+            from vlib import oracles as _orc
+            xf = _orc.user_of(rec, pb, x)
             got = internal_linear(pb.linear, x)
             lv, lmag = truth.linear_violation(bt, xf)
             want = float(np.max(lv, initial=0.0))
